@@ -545,13 +545,17 @@ def process_chunk(args):
 class Replay:
     """Streams TLC records into a process pool; merges what the workers report into a common.Verdict."""
 
-    def __init__(self, build, verdict, cfgs, judge_name, variants=1, chunk=1500, keymap=None, styles=None, drift=True):
+    def __init__(self, build, verdict, cfgs, judge_name, variants=1, chunk=1500, keymap=None, styles=None, drift=True, worker=None):
         self.b, self.v, self.cfgs = build, verdict, cfgs
         self.opts = {"seed": verdict.seed, "variants": variants, "keymap": keymap, "styles": styles, "drift": drift}
         self.pool = multiprocessing.get_context("fork").Pool(
             common.NCPU, initializer=_worker_init,
             initargs=({"cli": build.cli, "root": build.root}, cfgs, judge_name, self.opts))
         self.buf, self.pending, self.chunk, self.nchunks = [], [], chunk, 0
+        self.worker = process_chunk
+        if worker:
+            m_, f_ = worker.split(":")
+            self.worker = getattr(importlib.import_module(m_), f_)
         self.records = 0
         self.crashes = 0
         self.crash_samples = []
@@ -573,7 +577,7 @@ class Replay:
 
     def flush(self):
         if self.buf:
-            self.pending.append(self.pool.apply_async(process_chunk, ((self.nchunks, self.buf),)))
+            self.pending.append(self.pool.apply_async(self.worker, ((self.nchunks, self.buf),)))
             self.nchunks += 1
             self.buf = []
 
